@@ -22,6 +22,7 @@ import (
 
 	"github.com/gopcua/opcua/ua"
 	"github.com/gopcua/opcua/uacp"
+	"github.com/gopcua/opcua/uapolicy"
 	"github.com/gopcua/opcua/uasc"
 
 	"verifharness/internal/h"
@@ -461,10 +462,17 @@ func (e *env) wgRace(attempts int) {
 		var held []*h.SendRule
 		holdA := s.ctl.BlockAt(func(ev *h.SendEv) bool { return ev.Name == "send.beforeLock" })
 		var wg sync.WaitGroup
+		actx, acancel := context.WithCancel(context.Background())
+		defer acancel()
 		send := func(tag int) {
 			wg.Add(1)
 			go func() {
 				defer wg.Done()
+				if tag == 1 {
+					// A waits for a response (that never comes) so that it reaches wait.begin right after pendingReq.Done
+					s.sc.SendRequestWithTimeout(actx, req(tag), nil, 30*time.Second, func(ua.Response) error { return nil })
+					return
+				}
 				s.sc.SendRequestWithTimeout(context.Background(), req(tag), nil, 30*time.Second, nil)
 			}()
 		}
@@ -476,6 +484,11 @@ func (e *env) wgRace(attempts int) {
 		}
 		for i := 0; i < nB; i++ { // B_i: past the gate, not yet counted
 			hb := s.ctl.BlockAt(func(ev *h.SendEv) bool { return ev.Name == "send.afterActive" })
+			spin := time.Duration(i*(a%4)) * 500 * time.Nanosecond // spread the Adds over the microseconds after the Done
+			hb.After = func() {
+				for t0 := time.Now(); time.Since(t0) < spin; {
+				}
+			}
 			held = append(held, hb)
 			send(10 + i)
 			if hb.WaitReached(20*time.Second) == nil {
@@ -487,13 +500,10 @@ func (e *env) wgRace(attempts int) {
 		// when A announces pendingReq.Done, let the B's run into pendingReq.Add
 		var once sync.Once
 		s.ctl.OnEvent = func(ev *h.SendEv) {
-			if ev.Name == "send.pendDone" {
+			if ev.Name == "wait.begin" { // A has just called pendingReq.Done
 				once.Do(func() {
-					for i, hb := range held {
+					for _, hb := range held {
 						hb.Release()
-						for k := 0; k < i*a%7; k++ {
-							runtime.Gosched()
-						}
 					}
 				})
 			}
@@ -515,6 +525,7 @@ func (e *env) wgRace(attempts int) {
 			e.r.InfraError = s.name + ": renew did not return"
 		}
 		s.ctl.ReleaseAll()
+		acancel()
 		wdone := make(chan struct{})
 		go func() { wg.Wait(); close(wdone) }()
 		select {
@@ -540,7 +551,189 @@ func (e *env) wgRace(attempts int) {
 	e.r.Notes = append(e.r.Notes, fmt.Sprintf("waitgroup race: not hit in %d attempts", attempts))
 }
 
-// ---------------------------------------------------------------- (c) + corpus
+// ---------------------------------------------------------------- (c)
+
+const sigRekey = "C16.server-rekey-wrong-algorithm"
+
+// rekeyForced: real server channel and real client channel in Sign mode; the server's receive goroutine is
+// parked inside handleOpenSecureChannelRequest right after `instance.algo = <asymmetric>`, another goroutine
+// sends a response on the same channel.
+func (e *env) rekeyForced() {
+	name := "server-rekey-forced"
+	a, err1 := h.LoadKey(e.o.Keys, 2048, "a")
+	b, err2 := h.LoadKey(e.o.Keys, 2048, "b")
+	if err1 != nil || err2 != nil {
+		e.r.Notes = append(e.r.Notes, fmt.Sprintf("%s: keys not available (%v %v)", name, err1, err2))
+		return
+	}
+	cli, srv, cleanup, err := h.SendLoopbackSize(65535)
+	if err != nil {
+		e.r.InfraError = "loopback: " + err.Error()
+		return
+	}
+	defer cleanup()
+	uri := ua.SecurityPolicyURIBasic256Sha256
+	ccfg := &uasc.Config{SecurityPolicyURI: uri, SecurityMode: ua.MessageSecurityModeSign, Certificate: a.CertDER, LocalKey: a.Key,
+		RemoteCertificate: b.CertDER, Thumbprint: uapolicy.Thumbprint(b.CertDER), Lifetime: 3600000, RequestTimeout: 30 * time.Second}
+	scfg := &uasc.Config{SecurityPolicyURI: uri, SecurityMode: ua.MessageSecurityModeSign, Certificate: b.CertDER, LocalKey: b.Key,
+		RemoteCertificate: a.CertDER, Thumbprint: uapolicy.Thumbprint(a.CertDER), Lifetime: 3600000, RequestTimeout: 30 * time.Second}
+	nC, nS := make([]byte, 32), make([]byte, 32)
+	for i := range nC {
+		nC[i], nS[i] = byte(i+1), byte(200-i)
+	}
+	cerr := make(chan error, 64)
+	serr := make(chan error, 64)
+	csc, err := uasc.VerifOpenChannel(cli, ccfg, false, 21, 1, 100, nC, nS, cerr)
+	if err != nil {
+		e.r.InfraError = name + ": client channel: " + err.Error()
+		return
+	}
+	ssc, err := uasc.VerifOpenServerChannel(srv, scfg, 21, 1, 500, nS, nC, serr)
+	if err != nil {
+		e.r.InfraError = name + ": server channel: " + err.Error()
+		return
+	}
+	ctl := h.NewSendCtl()
+	uasc.VerifSetHook(ctl.Hook)
+	defer func() { uasc.VerifSetHook(nil); ctl.ReleaseAll() }()
+	csc.VerifStartDispatcher()
+	sctx, scancel := context.WithCancel(context.Background())
+	defer scancel()
+	go func() { // the server's receive loop (as server/channel_broker does): answers ReadRequests
+		for {
+			msg := ssc.Receive(sctx)
+			if msg.Err != nil {
+				return
+			}
+			if rr, ok := msg.Request().(*ua.ReadRequest); ok {
+				ssc.SendResponseWithContext(sctx, msg.RequestID, &ua.ReadResponse{ResponseHeader: h.RespHeader(rr.RequestHeader.RequestHandle, ua.StatusOK)})
+			}
+		}
+	}()
+	call := func(tag int) error {
+		return csc.SendRequestWithTimeout(context.Background(), req(tag), nil, 20*time.Second, func(v ua.Response) error {
+			if _, ok := v.(*ua.ReadResponse); !ok {
+				return fmt.Errorf("got %T", v)
+			}
+			return nil
+		})
+	}
+	drain := func(d time.Duration) error {
+		select {
+		case err := <-cerr:
+			return err
+		case <-time.After(d):
+			return nil
+		}
+	}
+	// sanity: request/response and an unsolicited response outside any renewal are fine
+	if err := call(1); err != nil {
+		e.r.Notes = append(e.r.Notes, name+": Sign-mode round trip failed, scenario skipped: "+err.Error())
+		return
+	}
+	unsolicited := func(id uint32) error {
+		return ssc.SendResponseWithContext(context.Background(), id, &ua.ReadResponse{ResponseHeader: h.RespHeader(id, ua.StatusOK)})
+	}
+	if err := unsolicited(7001); err != nil {
+		e.r.Notes = append(e.r.Notes, name+": cannot send an unsolicited response: "+err.Error())
+		return
+	}
+	if err := call(2); err != nil || drain(50*time.Millisecond) != nil {
+		e.r.Notes = append(e.r.Notes, fmt.Sprintf("%s: control (response outside a renewal) failed: %v", name, err))
+		return
+	}
+	// forced schedule
+	hold := ctl.BlockAt(func(ev *h.SendEv) bool { return ev.Name == "srvopn.asym" })
+	rdone := make(chan error, 1)
+	go func() { rdone <- csc.Renew(context.Background()) }()
+	if hold.WaitReached(20*time.Second) == nil {
+		e.r.Notes = append(e.r.Notes, name+": server did not reach handleOpenSecureChannelRequest (machine slow?)")
+		return
+	}
+	serrSend := unsolicited(7002) // a publish response of another goroutine, in the window
+	got := drain(10 * time.Second)
+	hold.Release()
+	var rerr error
+	select {
+	case rerr = <-rdone:
+	case <-time.After(20 * time.Second):
+		rerr = fmt.Errorf("renew did not return")
+	}
+	e.r.Count(name, true)
+	e.r.Hit("scenario:server-rekey-forced")
+	detail := fmt.Sprintf("response sent by another goroutine while handleOpenSecureChannelRequest re-keys the instance: send err=%v, client dispatcher error=%v, renew=%v", serrSend, got, rerr)
+	e.r.Sample(name + ": " + detail)
+	// model: the server-side events replayed through the re-key LTS must put exactly the rejected chunk under the asymmetric algorithm
+	if e.d != nil {
+		var recvG int64 = -1
+		evs := ctl.Events()
+		for _, ev := range evs {
+			if ev.Name == "srvopn.asym" {
+				recvG = ev.G
+			}
+		}
+		var ls []string
+		inOPN := false
+		cur := map[int64]int{}
+		n := 0
+		for _, ev := range evs {
+			switch ev.Name {
+			case "srvopn.readAsym":
+				if ev.G == recvG { // the client's readChunk passes the same point for the OPN response
+					ls = append(ls, "readOPN")
+				}
+			case "srvopn.asym":
+				ls = append(ls, "handleAsym")
+				inOPN = true
+			case "srvopn.sent":
+				inOPN = false
+			case "srvopn.sym":
+				ls = append(ls, "installSym")
+			case "resp.lockedInst":
+				if ev.G == recvG && inOPN {
+					ls = append(ls, "respLock")
+				} else {
+					cur[ev.G] = n
+					n++
+					ls = append(ls, fmt.Sprintf("sLock%d", cur[ev.G]))
+				}
+			case "resp.chunk":
+				if ev.G == recvG && inOPN {
+					ls = append(ls, "respWrite")
+				} else {
+					ls = append(ls, fmt.Sprintf("sSecure%d", cur[ev.G]))
+				}
+			case "resp.unlockInst":
+				if ev.G == recvG && inOPN {
+					ls = append(ls, "respUnlock")
+				} else {
+					ls = append(ls, fmt.Sprintf("sUnlock%d", cur[ev.G]))
+				}
+			}
+		}
+		q := "rk " + strings.Join(ls, " ")
+		m := e.d.Ask(q)
+		nAsym := strings.Count(m, "m:asym")
+		nRej := 0
+		if got != nil {
+			nRej = 1
+		}
+		e.r.Count(q, true)
+		e.r.TracesValidated++
+		if m == "reject" || m == "bad-op" || nAsym != nRej || strings.Count(m, "o:asym") != 1 {
+			e.r.Disagree(q, m, fmt.Sprintf("%d MSG chunk(s) rejected by the client, 1 OPN response", nRej))
+		}
+	}
+	if got != nil && strings.Contains(got.Error(), "SecurityChecksFailed") {
+		// oracle: requests / responses issued around a renewal, on either side, complete normally
+		e.r.Fail(name, sigRekey, detail)
+		e.r.Confirm(sigRekey, detail)
+	} else {
+		e.r.Notes = append(e.r.Notes, name+": not reproduced: "+detail)
+	}
+}
+
+// ---------------------------------------------------------------- corpus
 
 func (e *env) modelOnly() {
 	for _, line := range e.o.CorpusLines() {
@@ -608,6 +801,8 @@ func main() {
 			}
 		} else if strings.HasPrefix(o.Replay, "live-lifetime") {
 			e.storm()
+		} else if strings.HasPrefix(o.Replay, "server-rekey") {
+			e.rekeyForced()
 		} else if strings.HasPrefix(o.Replay, "waitgroup-race") {
 			e.wgRace(50)
 		}
@@ -626,6 +821,9 @@ func main() {
 	}
 	if r.InfraError == "" {
 		e.wgRace(o.N(120, 2000))
+	}
+	if r.InfraError == "" {
+		e.rekeyForced()
 	}
 	if r.InfraError == "" {
 		e.storm() // last: its renewal goroutines may outlive the scenario for a moment
